@@ -54,7 +54,7 @@ def run(ctx):
             f.write(rp.get("case", "") + "\n")
         args += ["--replay-cases", cf]
     elif quick:
-        args += ["--nevents", "12000", "--ncli", "130", "--nwide", "10"]
+        args += ["--nevents", "12000", "--ncli", "110", "--nwide", "8"]
     else:
         args += ["--nevents", "200000", "--ncli", "900", "--nwide", "60"]
     p = vlib.run(args, timeout=3300)
